@@ -16,6 +16,7 @@ What the Python does with the third coordinate on the path of `mapOnNetwork`, ca
 * `SpatialIndex.addFeature`, `neighborhood(coord, unit)` read `getX()`, `getY()` only: the index is the planimetric one of C08,
   built on `xy` of the geometries and asked with `xy` of the observed position.
 * `Network.addNode` / `addEdge` store the objects handed over: geometries and node coordinates keep their altitudes.
+* `io/network_reader.py` `wktLineStringToObs`: a vertex `x y z` keeps its altitude, a vertex `x y` gets `0.0`: `wktVertex`.
 
 Everything else (loops, dictionaries, front end, created columns) is the code of `Model/MapMatch` / `Model/MapMatchNet` again, on
 the 3D structures. `Lemmas/MapMatchZ.lean` proves that this model is the 2D one on the planimetric parts (`xy`), so that every
@@ -28,6 +29,14 @@ abbrev P3 (α : Type) := α × α × α
 
 /-- `(getX(), getY())` of a position -/
 def xy {α : Type} (p : P3 α) : α × α := (p.1, p.2.1)
+
+/-- `io/network_reader.py` `wktLineStringToObs`, one vertex of `LINESTRING(…)`: `sl = coords[i].strip().split(" ")` after `float`:
+`x = sl[0]`, `y = sl[1]`, `z = sl[2] if len(sl) == 3 else 0.0` (a vertex written `x y` — or with four numbers — gets altitude
+0, also next to `x y z` vertices of the same line); fewer than two numbers: `IndexError` -/
+def wktVertex {α : Type} [OfNat α 0] : List α → Option (P3 α)
+  | [x, y, z] => some (x, y, z)
+  | x :: y :: _ => some (x, y, 0)
+  | _ => none
 
 /-- an edge geometry (a `Track` of 3D positions) with its `abs_curv` column -/
 structure Edge3 (α : Type) where
